@@ -503,6 +503,32 @@ def run_file(res, judge, tracker, fp, name, data, path, rng, tier, full_lines=Tr
     def sources():
         return [("bytesio", None), ("str", str(path)), ("path", Path(path))]
 
+    # ---------------- the setting as applications leave it: not only the two booleans, but whatever truthy / falsy thing a
+    # configuration loader put there (1, 0, a string, an object with its own __bool__): after a load it is that very OBJECT again
+    class _Live:
+        def __init__(self, v):
+            self.v = v
+
+        def __bool__(self):
+            return self.v
+    for odd in (1, 0, "yes", "", _Live(True), _Live(False), None):
+        attempt("none", None, "bytesio", lambda: faults.FaultyBytesIO(data), odd)
+        attempt("truncated", None, "bytesio", lambda: faults.FaultyBytesIO(data[:max(8, len(data) // 2)]), odd)
+        res.count("loads_with_non_boolean_settings", 2)
+    # ---------------- a load by path while ANOTHER handle holds an exclusive advisory lock on the file (an editor, a sync tool)
+    try:
+        import fcntl
+        with open(str(path), "rb") as locker:
+            fcntl.flock(locker, fcntl.LOCK_EX | fcntl.LOCK_NB)
+            try:
+                for flag in (True, False):
+                    attempt("file-locked-by-another-handle", None, "path", lambda: Path(path), flag)
+                    attempt("file-locked-by-another-handle", None, "str", lambda: str(path), flag)
+                    res.count("loads_of_locked_files", 2)
+            finally:
+                fcntl.flock(locker, fcntl.LOCK_UN)
+    except (ImportError, OSError):
+        res.count("file_locking_unavailable")
     # ---------------- clean loads, all sources, both flags
     for flag in (True, False):
         for sname, sarg in sources():
